@@ -123,7 +123,7 @@ Apply(ch, m) ==
                               IF n = 2 THEN <<[BaseNoc(r2) EXCEPT !.sigBy = KRoot2], r2>>
                               ELSE LET i2 == [BaseIca EXCEPT !.sigBy = KRoot2, !.akid = KRoot2] IN <<BaseNoc(i2), i2, r2>>
     [] m = "swapNocIca" -> <<ch[2], ch[1], ch[3]>>
-    [] m = "nocAsAuthority" -> LET n2 == [BaseNoc(ch[ica]) EXCEPT !.key = KOther, !.skid = KOther, !.subj = "node2"]   \* a NOC signs another NOC
+    [] m = "nocAsAuthority" -> LET n2 == [BaseNoc(ch[n]) EXCEPT !.key = KOther, !.skid = KOther, !.subj = "node2"]   \* a NOC signs another NOC
                                    lf == [BaseNoc(n2) EXCEPT !.sigBy = KOther, !.akid = KOther, !.issuer = "node2"]
                                IN <<lf, n2, ch[n]>>
     [] m = "icaRepeated" -> <<ch[1], ch[2], ch[2]>>                                   \* the chain does not reach a root
@@ -134,7 +134,7 @@ Apply(ch, m) ==
 
 \* CASE transmits NOC and ICAC only (the root is the fabric's own); the bare verifier has no notion of "intermediate"
 Applicable(shape, m, p) == /\ (m \in NeedsIca => shape = 3) /\ (m = "nocAsAuthority" => shape = 2)
-                           /\ (m \in {"icaRepeated", "swapNocIca", "nocAsAuthority"} => p # "case")
+                           /\ (m \in {"icaRepeated", "swapNocIca"} => p # "case")
                            /\ (m = "rootInIcaSlot" => p # "verify")
 
 VARIABLES case, n
